@@ -620,6 +620,8 @@ fn c10_requested(o: &mut Out, rng: &mut Rng, thorough: bool) {
         expect(o, format!("c11_sub_pub {} {} 0 0", sh(&v), th), format!("{} {}", ph(&vv), th), "wallet spend key at index 0/0: unchanged");
         expect(o, format!("c11_sub_addr {} {} {} {} Mainnet", sh(&v), th, i, j), hex(address_text(42, &dt.1, &dt.0).as_bytes()), "wallet spend key of get_subaddress");
     }
+    // (3) the receiver recognises a tagged output built from an additional key also when the MAIN derivation's view tag collides
+    family_view_tag_collision(o, rng, if thorough { 6 } else { 2 }, "c10");
 }
 
 pub fn run_c09(o: &mut Out, tier: &str, seed: u64) {
@@ -718,14 +720,15 @@ fn parse_scan_recover(got: &str) -> Option<Vec<(usize, (u32, u32), String)>> {
 }
 /// oracle for a `c09_scan_tx` / `c09_scan_pre` result: exactly the positions `want` (with their indices) are reported, and every
 /// recovered scalar times G is the output key that is on the wire at that position
-fn judge_scan_recover(o: &mut Out, line: &str, got: &str, keys: &[[u8; 32]], want: &[(usize, (u32, u32))], what: &str) {
+fn judge_scan_recover(o: &mut Out, line: &str, got: &str, keys: &[[u8; 32]], want: &[(usize, (u32, u32))], what: &str) { judge_scan_recover_as(o, "c09", line, got, keys, want, what) }
+fn judge_scan_recover_as(o: &mut Out, label: &str, line: &str, got: &str, keys: &[[u8; 32]], want: &[(usize, (u32, u32))], what: &str) {
     let parsed = parse_scan_recover(got);
     let rep: Option<Vec<(usize, (u32, u32))>> = parsed.as_ref().map(|v| v.iter().map(|(p, ij, _)| (*p, *ij)).collect());
-    o.direct(rep.as_deref() == Some(want), &format!("c09: {}: the scan reports exactly the outputs addressed to the scanned indices, with their indices", what),
+    o.direct(rep.as_deref() == Some(want), &format!("{}: {}: the scan reports exactly the outputs addressed to the scanned indices, with their indices", label, what),
         trunc(line, 300), trunc(got, 300), format!("{:?}", want));
     for (p, _, x) in parsed.unwrap_or_default() {
         let xg = from_hex_scalar(&x).map(|x| (x * G).compress().to_bytes());
-        o.direct(xg.is_some() && xg.as_ref() == keys.get(p), &format!("c09: {}: recover_key(owned output)*G == the output key that is on the wire", what),
+        o.direct(xg.is_some() && xg.as_ref() == keys.get(p), &format!("{}: {}: recover_key(owned output)*G == the output key that is on the wire", label, what),
             trunc(line, 300), xg.map(|b| hex(&b)).unwrap_or(x), keys.get(p).map(|k| hex(k)).unwrap_or("no such output".into()));
     }
 }
@@ -852,10 +855,15 @@ fn c09_requested(o: &mut Out, rng: &mut Rng, thorough: bool) {
             }
         }
     }
-    // (4) a TAGGED output addressed through its additional key whose view tag ALSO equals the tag the main key's derivation gives at
-    // that position (1 in 256 by chance — searched for here): the main key passes the tag test, fails the key test, and the scan
-    // must still fall through to the additional key
-    for k in 0..(if thorough { 8 } else { 2 }) {
+    // (4) view-tag collision between the main and the additional derivation
+    family_view_tag_collision(o, rng, if thorough { 8 } else { 2 }, "c09");
+}
+
+/// A TAGGED output addressed through its additional key whose view tag ALSO equals the tag the main key's derivation gives at that
+/// position (1 in 256 by chance — searched for here): the main key passes the tag test, fails the key test, and the scan must still
+/// fall through to the additional key ("one-time keys built from the derivation are recognised by the receiver": C09 and C10)
+fn family_view_tag_collision(o: &mut Out, rng: &mut Rng, count: usize, label: &str) {
+    for k in 0..count {
         let (v, s) = (rand_scalar(rng), rand_scalar(rng));
         let s_pub = s * G;
         let r_main = rand_scalar(rng);
@@ -870,7 +878,7 @@ fn c09_requested(o: &mut Out, rng: &mut Rng, thorough: bool) {
             let dd = derivation(&v, &txk);
             if view_tag(&dd, pos) == view_tag(&d_main, pos) { found = Some((txk, dd)); break; }
         }
-        let (txk, dd) = match found { Some(f) => f, None => { o.stat("c09.view-tag-collision.not-found"); continue; } };
+        let (txk, dd) = match found { Some(f) => f, None => { o.stat(&format!("{}.view-tag-collision.not-found", label)); continue; } };
         let mut outs: Vec<([u8; 32], Option<u8>)> = vec![]; let mut adds: Vec<EdwardsPoint> = vec![];
         for p in 0..=pos {
             if p == pos { outs.push((derive_public_key(&dd, pos, &d.1).compress().to_bytes(), Some(view_tag(&dd, pos)))); adds.push(txk); }
@@ -879,9 +887,9 @@ fn c09_requested(o: &mut Out, rng: &mut Rng, thorough: bool) {
         let keys: Vec<[u8; 32]> = outs.iter().map(|(k, _)| *k).collect();
         let pre = serialize(&prefix_targets(if k % 2 == 0 { 1 } else { 2 }, &outs, extra_of(&(r_main * G), &adds)));
         let line = format!("c09_scan_pre {} {} 0 2 0 3 {} none", sh(&v), sh(&s), hex(&pre));
-        o.stat("c09.view-tag-collision");
+        o.stat(&format!("{}.view-tag-collision", label));
         let got = o.op(line.clone(), true);
-        judge_scan_recover(o, &line, &got, &keys, &[(pos as usize, (i, j))], "tagged output owned through the additional key, the main key's view tag collides");
+        judge_scan_recover_as(o, label, &line, &got, &keys, &[(pos as usize, (i, j))], "tagged output owned through the additional key, the main key's view tag collides");
     }
 }
 
